@@ -22,6 +22,7 @@ CLS_ENUM30 = "openapi-3.0-non-string-enum-values-emitted-as-strings"
 CLS_RFC = "rfc7807-component-without-a-plain-error-route"
 CLS_YAML31 = "openapi-3.1-string-enum-values-retyped-by-yaml"
 CLS_FORMDESCR = "openapi-3.0-form-field-description-written-through-ref"
+SAR = "spec-and-routes"
 # The 3.0 generator writes the description of a @FormField parameter of a named type into the shared
 # component (patches/fix-C07-form-field-description-through-ref.diff).  The deliberate instance runs once
 # the finding is listed in known_findings.json (or VERIF_C07_FORM_DESCRIPTION=1); after the fix has landed
@@ -35,6 +36,24 @@ def yaml_plain_safe(v):
     """Text that YAML resolves to a string when it is written as an untagged plain scalar."""
     import re
     return bool(re.match(r"^[A-Za-z][A-Za-z0-9 _-]*$", v)) and v.lower() not in YAML_WORDS
+
+
+def yaml_may_retype(v):
+    """Text that YAML may resolve to something else than itself when it is written as an untagged scalar:
+    the null / boolean words, the empty text, and what starts like a number or a timestamp.  Every other
+    text (whatever has to be quoted for its characters included) comes out as the same string."""
+    import re
+    return v == "" or v.strip() != v or v.lower() in YAML_WORDS or v.startswith("~") or \
+        bool(re.match(r"^[-+]?(\.?[0-9]|\.inf|\.nan)", v.lower()))
+
+
+def multiset_included(small, big):
+    big = list(big)
+    for x in small:
+        if x not in big:
+            return False
+        big.remove(x)
+    return True
 
 
 def known_by_class(prop=PROP):
@@ -62,6 +81,13 @@ def direct_named(t):
     while t[0] == "ptr":
         t = t[1]
     return t if t[0] == "named" else None
+
+
+def escaped_enum_values(u):
+    """Number of values of reachable string enums that a Go / JSON string literal has to escape."""
+    reach = T.py_reach(u)
+    return sum(1 for d in u["decls"] if d["kind"] == "enum" and d["base"] == "string" and (d["pkg"], d["name"]) in reach
+               for c in d["consts"] if any(ch in '"\\' or ord(ch) < 32 for ch in c[2]))
 
 
 def returns_plain_error(u):
@@ -109,8 +135,11 @@ def neutralise(spec, version, u):
             sch = schemas.get(d["name"])
             if all(yaml_plain_safe(x) for x in declared) or not isinstance(sch, dict):
                 continue
+            # only the values YAML may read as something else are excused; the others must be there as declared
             if sch.get("type") == "string" and isinstance(sch.get("enum"), list) \
-                    and len(sch["enum"]) == len(declared) and sch["enum"] != sorted(declared):
+                    and len(sch["enum"]) == len(declared) and sch["enum"] != sorted(declared) \
+                    and multiset_included([x for x in declared if not yaml_may_retype(x)],
+                                          [x for x in sch["enum"] if isinstance(x, str)]):
                 sch["enum"] = sorted(declared)
                 applied.add(CLS_YAML31)
     if "Rfc7807Error" in schemas and not returns_plain_error(u):
@@ -155,7 +184,8 @@ def variants_of(rng, u):
             out.append(("field-tag", v, {u["decls"][di]["name"]}, None))
     enum_sites = [(di, fi, n) for (di, fi, n) in sites
                   if (T.find_decl(u, n[1], n[2]) or {}).get("kind") == "enum"
-                  and T.find_decl(u, n[1], n[2])["base"] == "string"]
+                  and T.find_decl(u, n[1], n[2])["base"] == "string"
+                  and T.tag_safe(T.find_decl(u, n[1], n[2])["consts"][0][2].split(" ")[0])]
     if enum_sites:
         di, fi, n = rng.choice(enum_sites)
         e = T.find_decl(u, n[1], n[2])
@@ -258,9 +288,11 @@ OAUTH_SCHEME = {"name": "oauthy", "type": "oauth2", "in": "", "field": "", "flow
 
 
 def tricky_universe():
-    """Unexported / json:"-" / nameless-json fields, YAML-sensitive enum values, enum constants in a second
-    file (both packages), multi-name declarations of mixed visibility, dive tags on collections of an enum and
-    an oauth2 scheme with different scopes per flow, in one small universe (they are in the random stream too)."""
+    """Unexported / json:"-" / nameless-json fields, YAML-sensitive enum values, enum values that string
+    literals must escape, enum constants in a second file (both packages), multi-name declarations of mixed
+    visibility, dive tags on collections of an enum, validator tags holding the word `required` without the
+    rule, a context.Context parameter in front of path / query / header parameters and an oauth2 scheme with
+    different scopes per flow, in one small universe (they are in the random stream too)."""
     P = T.prim
     N = T.named
 
@@ -282,7 +314,17 @@ def tricky_universe():
                       {"pkg": "types", "name": "Hidden", "kind": "struct", "fields": [fld("Z", P("int"))]},
                       {"pkg": "types", "name": "Dim", "kind": "struct", "fields": [fld("N", P("int"), "n")]},
                       {"pkg": "types", "name": "Unit", "kind": "alias", "assigned": False, "rhs": P("string")},
+                      # values a Go / JSON / YAML string literal has to escape
+                      {"pkg": "types", "name": "Sep", "kind": "enum", "base": "string", "split": None,
+                       "consts": [["SepComma", '","', ","], ["SepQuote", '"\\""', '"'], ["SepBackslash", '"\\\\"', "\\"],
+                                  ["SepTab", '"\\t"', "\t"]]},
                       {"pkg": "types", "name": "Box", "kind": "struct", "fields": [
+                          fld("Sep", N("types", "Sep"), "sep"),
+                          # the word `required` as the parameter of another rule is not the rule
+                          fld("Presence", P("string"), "presence", "omitempty,oneof=required optional forbidden"),
+                          fld("Mode", P("string"), "mode", "eq=required"),
+                          fld("Fallback", P("string"), "fallback,omitempty", "required_if=Presence optional"),
+                          fld("Name", P("string"), "name", "min=1,required"),
                           fld("raw", N("types", "Hidden")),
                           fld("Skip", P("string"), "-"),
                           fld("Opt", P("int"), ",omitempty", "required"),
@@ -296,7 +338,17 @@ def tricky_universe():
                           fld("ByPrio", ["map", P("string"), N("other", "Prio")], "byPrio", "dive,oneof=5")]}],
             "ctrls": [{"name": "Ctl", "prefix": "", "security": [{"name": "oauthy", "scopes": ["read"]}], "routes": [
                 {"name": "M0", "verb": "GET", "path": "/a", "hidden": False, "params": [],
-                 "ret": N("types", "Box"), "err": None, "errors": [], "security": []}]}]}
+                 "ret": N("types", "Box"), "err": None, "errors": [], "security": []},
+                # a context parameter in front of the annotated ones
+                {"name": "M1", "verb": "GET", "path": "/items/{id}", "hidden": False,
+                 "params": [T.ctx_param(),
+                            {"name": "id", "loc": "path", "alias": None, "type": P("string"), "validate": None},
+                            {"name": "verbose", "loc": "query", "alias": None, "type": P("bool"), "validate": None},
+                            {"name": "sep", "loc": "query", "alias": None, "type": ["ptr", N("types", "Sep")],
+                             "validate": None},
+                            {"name": "mode", "loc": "header", "alias": None, "type": ["ptr", P("string")],
+                             "validate": "oneof=required optional"}],
+                 "ret": P("string"), "err": None, "errors": [], "security": []}]}]}
 
 
 # ------------------------------------------------------------------ main
@@ -305,9 +357,22 @@ def universe_stats(us):
     st = {"declarations": 0, "structs": 0, "enums": 0, "aliases": 0, "fields": 0, "embedded_fields": 0,
           "unexported_fields": 0, "json_dash": 0, "json_nameless": 0, "json_omitempty": 0, "validated_fields": 0,
           "self_recursive_structs": 0, "uses_second_package": 0, "reachable": 0, "unreachable": 0,
-          "enum_bases": {}, "field_shapes": {}, "routes": 0, "hidden_routes": 0, "custom_error_universes": 0}
+          "enum_bases": {}, "field_shapes": {}, "routes": 0, "hidden_routes": 0, "custom_error_universes": 0,
+          "routes_with_context_param": 0, "routes_with_context_before_url_param": 0,
+          "string_enum_values_needing_escapes": 0, "tags_with_required_as_a_word_only": 0}
+    import re
+
+    def word_only(tag):
+        return bool(tag) and bool(re.search(r"\brequired\b", tag)) and "required" not in tag.split(",")
     for u in us:
         reach = T.py_reach(u)
+        for r in T.all_routes(u):
+            locs = [p["loc"] for p in r["params"]]
+            if "ctx" in locs:
+                st["routes_with_context_param"] += 1
+                st["routes_with_context_before_url_param"] += int(any(
+                    l in ("path", "query", "header") for l in locs[locs.index("ctx") + 1:]))
+            st["tags_with_required_as_a_word_only"] += sum(1 for p in r["params"] if word_only(p["validate"]))
         st["custom_error_universes"] += int(any(r["err"] for r in T.all_routes(u)))
         st["routes"] += len(T.all_routes(u))
         st["hidden_routes"] += sum(1 for r in T.all_routes(u) if r["hidden"])
@@ -319,6 +384,9 @@ def universe_stats(us):
             if d["kind"] == "enum":
                 st["enums"] += 1
                 st["enum_bases"][d["base"]] = st["enum_bases"].get(d["base"], 0) + 1
+                if d["base"] == "string":
+                    st["string_enum_values_needing_escapes"] += sum(
+                        1 for c in d["consts"] if any(ch in '"\\' or ord(ch) < 32 for ch in c[2]))
             elif d["kind"] == "alias":
                 st["aliases"] += 1
             else:
@@ -332,6 +400,7 @@ def universe_stats(us):
                     st["json_nameless"] += int(f["json"] == ",omitempty")
                     st["json_omitempty"] += int(bool(f["json"]) and "omitempty" in f["json"])
                     st["validated_fields"] += int(bool(f["validate"]))
+                    st["tags_with_required_as_a_word_only"] += int(word_only(f["validate"]))
                     shape = f["type"][0] if f["type"][0] in ("ptr", "slice", "map") else "direct"
                     st["field_shapes"][shape] = st["field_shapes"].get(shape, 0) + 1
                     if (d["pkg"], d["name"]) in T.texpr_refs(f["type"]):
@@ -351,9 +420,13 @@ def main():
 
     singles = []          # (label, universe)
     pairs = []            # (kind, base universe, variant, allowed names, f9 target)
+    sar_of = []           # indices into singles: also run through `generate spec-and-routes`
     if a.replay:
         rp = json.load(open(a.replay))
-        if rp.get("variant") is not None:
+        if rp.get("command") == SAR:
+            singles.append(("replay", rp["input"]))
+            sar_of.append(0)
+        elif rp.get("variant") is not None:
             pairs.append((rp.get("variant_kind", "replay"), rp["input"], rp["variant"], set(rp.get("allowed", [])),
                           rp.get("oneof_target")))
         else:
@@ -368,11 +441,19 @@ def main():
         n = 26 if quick else 300
         k = 0
         while k < n:
-            u = T.gen_universe(rng, {"tricky_enum_values": True, "custom_error": 0.08})
+            u = T.gen_universe(rng, {"tricky_enum_values": True, "literal_unsafe_enum_values": 0.25,
+                                     "custom_error": 0.08})
             if has_same_named(u):
                 continue
             singles.append(("random", u))
             k += 1
+        # the second command that writes a specification: the deliberate universes and a part of the stream
+        nsar = 6 if quick else 60
+        stream = [i for i, (l, _) in enumerate(singles) if l == "random"]
+        # first the universes whose reachable string enums hold values that literals must escape
+        stream = [i for i in stream if escaped_enum_values(singles[i][1])] + \
+                 [i for i in stream if not escaped_enum_values(singles[i][1])]
+        sar_of = [i for i, (l, _) in enumerate(singles) if l in ("tricky", "custom-error")] + sorted(stream[:nsar])
         nb = 6 if quick else 50
         quota = {"field-tag": nb, "field-oneof": max(2, nb // 3), "field-dive": max(3, nb // 2), "param-tag": nb,
                  "extra-route": nb, "form-param-described": 1 if quick else 4}
@@ -400,6 +481,18 @@ def main():
         universes += [u, v]
     obs = T.run_universes(PROP, universes)
     nsingle = len(singles)
+    # `generate spec-and-routes` renders the routes file first and the specification after it, from the
+    # same metadata: its documents are further observations of the same universes (same oracle, same model)
+    sar_base = len(universes)
+    origin = {}           # index of a spec-and-routes observation -> index of the `generate spec` one
+    if sar_of:
+        obs += T.run_universes(PROP, [universes[i] for i in sar_of], tag="sar", command=SAR)
+        for j, i in enumerate(sar_of):
+            origin[sar_base + j] = i
+            universes.append(universes[i])
+
+    def command_of(k):
+        return SAR if k in origin else "spec"
 
     # ---- Coq evaluation: raw and neutralised documents
     cases, meta = [], []       # meta: (universe index, version, "raw"/"neutral", classes applied)
@@ -439,15 +532,15 @@ def main():
             res.known(known[c], what)
         return True
 
-    def observe(u, v):
-        o = T.run_universes(PROP + "_shrink", [u], versions=[v])[0][v]
+    def observe(u, v, command="spec"):
+        o = T.run_universes(PROP + "_shrink", [u], versions=[v], command=command)[0][v]
         return o
 
-    def still_fails(v):
+    def still_fails(v, command="spec"):
         def pred(u):
             if has_same_named(u):
                 return False
-            o = observe(u, v)
+            o = observe(u, v, command)
             spec2, _ = neutralise(o["spec"], v, u)
             e = S.evaluate(PROP, [(v, u, spec2)], "shrink")
             return bool(e["c07_fail"]) or bool(e["unprojectable"])
@@ -470,7 +563,8 @@ def main():
                     class_hits[c] = class_hits.get(c, 0) + 1
                 report_known_or_violation(
                     cl, "components.schemas of the %s document: %s" % (v, ", ".join(sorted(cl))),
-                    {"kind": "property-fails-on-implementation", "openapi": v, "input": universes[k],
+                    {"kind": "property-fails-on-implementation", "openapi": v, "command": command_of(k),
+                     "input": universes[k],
                      "implementation_components": components_of(obs[k][v]["spec"]),
                      "failed_subclaims": ev["c07_fail"][i]})
     reported = 0
@@ -479,12 +573,13 @@ def main():
             break
         reported += 1
         k, v, _, _ = meta[i]
-        small = T.shrink_universe(universes[k], still_fails(v)) if not a.replay else universes[k]
-        o = observe(small, v)
+        cmdk = command_of(k)
+        small = T.shrink_universe(universes[k], still_fails(v, cmdk)) if not a.replay else universes[k]
+        o = observe(small, v, cmdk)
         e2 = S.evaluate(PROP, [(v, small, neutralise(o["spec"], v, small)[0])], "shrink")
         after = ("unprojectable: " + e2["unprojectable"][0]) if e2["unprojectable"] else \
             "prop_C07 sub-claims %s fail" % e2["c07_fail"].get(0, [])
-        res.violation({"kind": "property-fails-on-implementation", "openapi": v, "input": small,
+        res.violation({"kind": "property-fails-on-implementation", "openapi": v, "command": cmdk, "input": small,
                        "implementation_components": components_of(o["spec"]), "cli_exit": o["exit"],
                        "cli_output": o["out"][-1200:], "why": why, "after_shrinking": after,
                        "subclaims": "1 a reachable declaration has no / a wrong / several schemas, 2 two reachable "
@@ -495,8 +590,11 @@ def main():
     # ---- correspondence model = implementation (components projection)
     unexplained_ids = set(i for i, _ in unexplained)
     retyped = set((m[0], m[1]) for m in meta if m[2] == "neutral" and CLS_YAML31 in m[3])
+    # the routes generator is not modelled: a spec-and-routes run that failed says nothing about the model
+    routes_failed = set((k, v) for k in origin for v in T.VERSIONS
+                        if obs[k][v]["spec"] is None and obs[origin[k]][v]["spec"] is not None)
     disagree = [i for i in ev["disagree_comps"] if meta[i][2] == "raw" and not has_same_named(universes[meta[i][0]])
-                and (meta[i][0], meta[i][1]) not in retyped]
+                and (meta[i][0], meta[i][1]) not in retyped and (meta[i][0], meta[i][1]) not in routes_failed]
     if disagree and not res.violations:
         # the model no longer describes the code: look harder for an input that fails the oracle
         extra = []
@@ -521,7 +619,7 @@ def main():
             i = disagree[0]
             k, v, _, _ = meta[i]
             res.violation({"kind": "correspondence", "obligation": "corr:Schema.components (components.schemas projection)",
-                           "openapi": v, "input": universes[k],
+                           "openapi": v, "command": command_of(k), "input": universes[k],
                            "implementation_components": components_of(obs[k][v]["spec"]),
                            "cli_exit": obs[k][v]["exit"], "cli_output": obs[k][v]["out"][-1200:],
                            "note": "model and implementation disagree on %d of %d documents; the property oracle holds "
@@ -565,6 +663,43 @@ def main():
             else:
                 res.violation(replay)
 
+    # ---- the two commands that write a specification agree on components.schemas
+    cmd_stats = {"pairs": 0, "both_written": 0, "components_compared": 0, "differences": 0,
+                 "spec_and_routes_failed_alone": len(routes_failed)}
+    cmd_reported = 0
+    for k2 in sorted(origin):
+        k1 = origin[k2]
+        for ver in T.VERSIONS:
+            cmd_stats["pairs"] += 1
+            a_doc, b_doc = obs[k1][ver]["spec"], obs[k2][ver]["spec"]
+            if a_doc is None or b_doc is None:
+                continue
+            cmd_stats["both_written"] += 1
+            ca, cb = components_of(a_doc), components_of(b_doc)
+            cmd_stats["components_compared"] += len(set(ca) | set(cb))
+            if ca == cb:
+                continue
+            cmd_stats["differences"] += 1
+            if cmd_reported or has_same_named(universes[k1]):
+                continue
+            cmd_reported += 1
+
+            def differs(u, ver=ver):
+                x = T.run_universes(PROP + "_shrink", [u], versions=[ver])[0][ver]["spec"]
+                y = T.run_universes(PROP + "_shrink", [u], versions=[ver], tag="sar", command=SAR)[0][ver]["spec"]
+                return x is not None and y is not None and components_of(x) != components_of(y)
+            small = universes[k1] if a.replay else T.shrink_universe(universes[k1], differs, budget=16)
+            x = T.run_universes(PROP + "_shrink", [small], versions=[ver])[0][ver]["spec"]
+            y = T.run_universes(PROP + "_shrink", [small], versions=[ver], tag="sar", command=SAR)[0][ver]["spec"]
+            names = sorted(n for n in set(components_of(x)) | set(components_of(y))
+                           if components_of(x).get(n) != components_of(y).get(n))
+            res.violation({"kind": "metamorphic-command-pair", "openapi": ver, "command": SAR, "input": small,
+                           "changed_components": names,
+                           "generate_spec": {n: components_of(x).get(n) for n in names},
+                           "generate_spec_and_routes": {n: components_of(y).get(n) for n in names},
+                           "claim": "a type's schema is a function of its declaration alone: `generate spec` and "
+                                    "`generate spec-and-routes` write the same components.schemas for one project"})
+
     # ---- evidence
     raw = [i for i, m in enumerate(meta) if m[2] == "raw"]
     accepted = [i for i in raw if cases[i][2] is not None]
@@ -582,7 +717,12 @@ def main():
                 "parameters, rendered to Go and run through the real CLI for 3.0.0 and 3.1.0; plus metamorphic pairs "
                 "(same universe +- one usage-site tag - required, or oneof=... on an enum-typed field, the former F9 - on "
                 "a $ref-typed field or parameter, + one route) compared on "
-                "the implementation's components; non-trivial = document written and it has a struct component; "
+                "the implementation's components; the deliberate universes and part of the stream also run through "
+                "`generate spec-and-routes` (same oracle and model on its documents, components compared with those of "
+                "`generate spec`); string enum values include texts a Go / JSON / YAML literal must escape (quote, "
+                "backslash, tab, control character), validate tags include the word `required` as the parameter of "
+                "another rule and the required_* family, methods may take a context.Context parameter at any position; "
+                "non-trivial = document written and it has a struct component; "
                 "distinct = distinct universes",
         "samples": [{"openapi": cases[i][0], "universe": cases[i][1],
                      "observed_components": components_of(cases[i][2])} for i in accepted[3:5]],
@@ -599,7 +739,8 @@ def main():
                 "unique_type_names (C07_closure, C07_lookup, C07_noninterference)":
                     len([i for i in ev["unique_quiet"] if meta[i][2] == "raw"]),
                 "well_linked (C08_wf_partial)": len([i for i in ev["well_linked"] if meta[i][2] == "raw"])},
-            "metamorphic_pairs": pair_stats}),
+            "metamorphic_pairs": pair_stats,
+            "spec_and_routes_observations": len(origin), "command_pairs": cmd_stats}),
     })
     res.assumptions += [
         "3.1.0: the values of a string enum are assumed to be text that YAML resolves to a string (letters, digits, "
